@@ -13,3 +13,12 @@ Definition run_ansi (c : Z * Z * list (list N)) : V :=
   match c with (r, cl, chunks) =>
     enc_ansi (fold_left (fun o t => match o with Some a => feed a t | None => None end) chunks (Some (ansi_init r cl)))
   end.
+
+(** (rows, cols, utf8?, pieces of BYTES): each piece goes through the screen's incremental decoder (utf-8, else latin-1 =
+    the identity on byte values), then through the parser; the decoder state is carried from piece to piece *)
+From PV Require Import IO.Model Ansi.Bytes.
+Definition run_ansi_bytes (c : Z * Z * bool * list (list N)) : V :=
+  match c with (r, cl, u, pieces) =>
+    if u then enc_ansi (option_map snd (write_bytes_chunks utf8_codec (cinit utf8_codec, ansi_init r cl) pieces))
+    else enc_ansi (option_map snd (write_bytes_chunks null_codec (cinit null_codec, ansi_init r cl) pieces))
+  end.
